@@ -175,7 +175,10 @@ func (fc *funcContext) translateMethod(fun *ast.FuncDecl) []byte {
 	// and forwards the call to the primary implementation.
 	proxyFunction := func(lvalue, receiver string) []byte {
 		fun := fmt.Sprintf("function(...$args) { return %s.%s(...$args); }", receiver, funName)
-		return []byte(fmt.Sprintf("\t\t%s = %s;\n", lvalue, fun))
+		// $fwd tells the run time which receiver the proxy forwards to, so that a method
+		// value (and with it a deferred or go call) can bind the implementation itself.
+		fwd := fmt.Sprintf("function() { return %s; }", receiver)
+		return []byte(fmt.Sprintf("\t\t%s = %s;\n\t\t%s.$fwd = %s;\n", lvalue, fun, lvalue, fwd))
 	}
 
 	// Structs are a special case: they are represented by JS objects and their
